@@ -7,7 +7,8 @@ Local Open Scope N_scope.
 Lemma tie_bcd_plus_runes : G.bcdPlusRunes = Impl.bcd_plus_runes.
 Proof. reflexivity. Qed.
 Lemma tie_seconds_multiplier :
-  G.seconds_multiplier_table = [([0], "1"); ([1], "60"); ([2], "60 60"); ([], "60 60 24")]%string.
+  G.seconds_multiplier_table = [([0], (0, [1], false)); ([1], (0, [60], false)); ([2], (0, [60; 60], false));
+                                ([], (0, [60; 60; 24], false))].
 Proof. reflexivity. Qed.
 Lemma tie_analog_parsers :
   G.analog_parsers = [(0, "AnalogDataFormatParserFunc parseAnalogDataFormatUnsigned");
